@@ -29,9 +29,9 @@ contract("parglare.actions.collect_first",
          locals={"e1": "list[any]", "e2": "opt[any]"},
          ensures=[
              "implies(nodes[1] is None, result == nodes[0])",
-             "implies(nodes[1] is not None, fresh(result) and len(result) == len(old(nodes[0])) + 1)",
-             "implies(nodes[1] is not None, forall(0, len(old(nodes[0])), lambda i: result[i] == old(nodes[0][i])))",
-             "implies(nodes[1] is not None, result[len(old(nodes[0]))] == nodes[1])",
+             "implies(nodes[1] is not None, fresh(result) and len(result) == old(len(nodes[0])) + 1)",
+             "implies(nodes[1] is not None, forall(0, old(len(nodes[0])), lambda i: result[i] == old(nodes[0][i])))",
+             "implies(nodes[1] is not None, result[old(len(nodes[0]))] == nodes[1])",
          ],
          modifies=[], properties=("C13", "C09"))
 
@@ -42,9 +42,9 @@ contract("parglare.actions.collect_first_sep",
          locals={"e1": "list[any]", "e2": "opt[any]"},
          ensures=[
              "implies(nodes[2] is None, result == nodes[0])",
-             "implies(nodes[2] is not None, fresh(result) and len(result) == len(old(nodes[0])) + 1)",
-             "implies(nodes[2] is not None, forall(0, len(old(nodes[0])), lambda i: result[i] == old(nodes[0][i])))",
-             "implies(nodes[2] is not None, result[len(old(nodes[0]))] == nodes[2])",
+             "implies(nodes[2] is not None, fresh(result) and len(result) == old(len(nodes[0])) + 1)",
+             "implies(nodes[2] is not None, forall(0, old(len(nodes[0])), lambda i: result[i] == old(nodes[0][i])))",
+             "implies(nodes[2] is not None, result[old(len(nodes[0]))] == nodes[2])",
          ],
          modifies=[], properties=("C13", "C09"))
 
@@ -54,9 +54,9 @@ contract("parglare.actions.collect_right_first",
          requires=["len(nodes) >= 2", "allocated(nodes[1])"],
          locals={"e1": "list[any]", "e2": "list[any]"},
          ensures=[
-             "fresh(result) and len(result) == len(old(nodes[1])) + 1",
+             "fresh(result) and len(result) == old(len(nodes[1])) + 1",
              "result[0] == nodes[0]",
-             "forall(0, len(old(nodes[1])), lambda i: result[i + 1] == old(nodes[1][i]))",
+             "forall(0, old(len(nodes[1])), lambda i: result[i + 1] == old(nodes[1][i]))",
          ],
          modifies=[], properties=("C13", "C09"))
 
@@ -65,9 +65,9 @@ contract("parglare.actions.collect_right_first_sep",
          requires=["len(nodes) >= 3", "allocated(nodes[2])"],
          locals={"e1": "list[any]", "e2": "list[any]"},
          ensures=[
-             "fresh(result) and len(result) == len(old(nodes[2])) + 1",
+             "fresh(result) and len(result) == old(len(nodes[2])) + 1",
              "result[0] == nodes[0]",
-             "forall(0, len(old(nodes[2])), lambda i: result[i + 1] == old(nodes[2][i]))",
+             "forall(0, old(len(nodes[2])), lambda i: result[i + 1] == old(nodes[2][i]))",
          ],
          modifies=[], properties=("C13", "C09"))
 
